@@ -91,3 +91,6 @@ def cases(tier, seed, ctx=None):
         ops = [G.Construct] + ([G.Feed(stream[:k])] if k else []) + [G.App(a) for a in early] + [G.Feed(s) for s in rng.partition(late, 3)] + [G.Turn]
         pol = rng.choice([G.NOPOL, [[G.Write(b"ok"), G.Close], [], []]])
         yield ("sockl", [pol, ops, env3, [19]], "linger-late-segments")
+    # the pending response at close() over TLS: several MiB written and closed at once must reach the client whole, as over plain TCP
+    yield ("tls", [1, b"GET /big HTTP/1.1\r\nHost: h\r\n\r\n", 5], "tls-big-response-at-close")
+    yield ("tls", [1, b"GET /small HTTP/1.1\r\nHost: h\r\n\r\n", 5], "tls-small-response-at-close")
